@@ -383,8 +383,19 @@ func (p *Project) Write(root, repo string) error {
 	if len(p.GWSerie) > 0 {
 		b.Reset()
 		b.WriteString("SID,Date,Level\n")
-		for _, g := range p.GWSerie {
+		// the file holds the series of several soils: rows of other ids — among them ids that START WITH this soil's id and an id
+		// that is a proper prefix of it — lie between the rows of this soil, on other dates and with other levels
+		for i, g := range p.GWSerie {
+			if i%2 == 0 {
+				fmt.Fprintf(&b, "%s5,%s,%g\n", p.SoilID, g.Date.AddDays(2).Fmt(p.DateFmt), g.Level+7)
+			}
 			fmt.Fprintf(&b, "%s,%s,%g\n", p.SoilID, g.Date.Fmt(p.DateFmt), g.Level)
+			if i%3 == 0 {
+				fmt.Fprintf(&b, "%sa,%s,%g\n", p.SoilID, g.Date.AddDays(1).Fmt(p.DateFmt), g.Level+11)
+			}
+			if i%2 == 1 && len(p.SoilID) > 1 {
+				fmt.Fprintf(&b, "%s,%s,%g\n", p.SoilID[:len(p.SoilID)-1], g.Date.AddDays(3).Fmt(p.DateFmt), g.Level+5)
+			}
 		}
 		if err := w("gw_"+p.Name+".csv", b.String()); err != nil {
 			return err
